@@ -394,7 +394,8 @@ def execute(case, ctx):
         allids = call(lambda: _force(g()))
         if allids[0] == "exc":
             bad_exc("call-no-args/%s" % kind, allids[1])
-        if idxs == [()] and allids[1] == want_ids[0]:
+        scalar_call = idxs == [()] and allids[1] == want_ids[0]
+        if scalar_call:
             allids = ("ok", want_ids)
         if allids[1] != want_ids:
             bad("index-enumeration/%s" % kind, "g() = %r, expected %r" %
@@ -402,8 +403,17 @@ def execute(case, ctx):
         labs = call(lambda: _force(g.label()))
         if labs[0] == "exc":
             bad_exc("label-no-args/%s" % kind, labs[1])
-        if idxs == [()] and labs[1] == gnames[0]:
+        scalar_label = idxs == [()] and labs[1] == gnames[0]
+        if scalar_label:
             labs = ("ok", gnames)
+        if idxs == [()] and scalar_call != scalar_label:
+            # the empty pattern is either the index of the only variable
+            # (as for a single variable) or the pattern that matches every
+            # index: identifiers and names must be asked in the same way
+            bad("empty-pattern-read-in-two-ways/%s" % kind,
+                "g() is %s but g.label() is %s" % (
+                    "one identifier" if scalar_call else "an enumeration",
+                    "one name" if scalar_label else "an enumeration"))
         if labs[1] != gnames:
             bad("group-labels/%s" % kind, "label() = %r, expected %r" %
                 (labs[1][:20], gnames[:20]))
@@ -412,6 +422,11 @@ def execute(case, ctx):
             a = call(g, *t)
             if a[0] == "exc":
                 bad_exc("index-to-id/%s" % kind, a[1])
+            if t == () and not isinstance(a[1], int):
+                # arity 0: the empty pattern also means "all identifiers"
+                forced = _force(a[1])
+                if isinstance(forced, list) and len(forced) == 1:
+                    a = ("ok", forced[0])
             if a[1] != vid:
                 bad("index-to-id/%s" % kind, "g%r = %r, expected %d" %
                     (t, a[1], vid))
